@@ -8,8 +8,10 @@ SPEC_PART = dict(
              "hll: the generator's spec encoder (tools/families/hll.py enc_list / enc_set / enc_hll, Java-compatible table builders) is "
              "independent of the crate and of the model; Spec/HllLayout.v hll_spec_decode judges the crate's answer"],
     assumptions=[],
-    covers="hll: both list variants are read back to the list they encode (c13_hll_list_variants_partial, proved); for set "
-           "(compact in any order / updatable table with colliding probe sequences) and array variants (Hll4/6/8 x COMPACT x "
+    covers="hll: both list variants are read back to the list they encode (c13_hll_list_variants_partial) and every Hll8 array "
+           "variant -- any flags byte, lgArr byte, numAtCurMin / auxCount fields -- to its k register bytes, recomputed num_zeros and "
+           "the flag's out-of-order state (c13_hll_hll8_variants_partial): proved; for set "
+           "(compact in any order / updatable table with colliding probe sequences) and the other array variants (Hll4/6 x COMPACT x "
            "OUT_OF_ORDER x cur_min > 0 x smallest-possible exception x lgArr byte) the claim is checked, not proved: each spec-encoded "
            "image must be accepted and the dumped state must be exactly what the independent decoder reads from the same bytes "
            "(mode, lg_k, type, coupon set / registers, flag, cur_min, exceptions, kxq, hip); then the sketch is queried, re-serialized, "
